@@ -15,8 +15,9 @@ class Prop:
     k_names = ["numbering(device under co-simulation == Nonce.Seq.dstep incl. sendNonce after every step; Nonce.Spec.seq_check on the observed datagrams; the device comes to rest)",
                "stress(every (receiver index, counter) seen under concurrent flushers passes Nonce.Spec.conc_holdsb)"]
     rule = ("sequential scenarios: one peer, events {TUN batch 1..128, VerifSetSendNonce to 0 / 2^60-1..2^60+1 / Reject-130..Reject+2, "
-            "handshake answer by the independent party, 5 s-spacing shift, UAPI keepalive toggle}, one directed scenario per boundary "
-            "value plus random ones from ONE PRNG; non-trivial = the scenario makes the device hold packets (exhausted/straddle/no key) "
+            "handshake answer by the independent party (device = initiator), handshake initiated by the independent party and confirmed by "
+            "its first data message (device = RESPONDER), 5 s-spacing shift, UAPI keepalive toggle}, two directed scenarios per boundary "
+            "value (one per role) plus random ones from ONE PRNG; non-trivial = the scenario makes the device hold packets (exhausted/straddle/no key) "
             "or pass 2^60; distinct by content hash.  stress traces: 1-3 peers, 6 kinds of concurrent flushers, GOMAXPROCS/gate-sleep/"
             "CPU-hog perturbation, 8 phases per world with the counter put next to the limits at quiescent points; "
             "non-trivial = more than one key and at least 1000 transports")
@@ -82,13 +83,14 @@ class Prop:
         return [f for f in fs if not (cases[f["case"]].get("slow") and cases[f["case"]]["kind"] == "seq")]
 
     def stats(self, outputs):
-        tot = [0] * 11
+        tot = [0] * 13
         for o in outputs.values():
             v = vlib.parse_n_list(vlib.coq_value(o, "st"))
             tot = [a + b for a, b in zip(tot, v)]
         names = ["all_numbered", "straddle_numbered_and_held", "exhausted_at_top_check", "no_key_staged",
                  "initiation_after_2^60", "initiation_suppressed_by_spacing", "new_session_delivers_held", "new_session_keepalive",
-                 "stress_transports", "stress_keys", "stress_non_consecutive_neighbours"]
+                 "stress_transports", "stress_keys", "stress_non_consecutive_neighbours",
+                 "responder_session_confirmed_by_data", "initiation_after_2^60_as_responder"]
         return dict(zip(names, tot))
 
     def run_cases(self, cases):
@@ -157,20 +159,31 @@ class Prop:
             return "packet-sent-twice"
         if any(t["p"] >= 2**40 for t in txs):
             return "transport-does-not-open-or-foreign-packet"
-        sub, sent, allowed = set(), set(), True
+        sub, sent, allowed, nxt, role = set(), set(), True, None, {}
         for e, o in zip(evs, obs):
             if e["k"] == "tun":
                 sub |= set(range(o.get("first", 0), o.get("first", 0) + e.get("n", 0)))
             sent |= {t["p"] for t in (o.get("tx") or []) if t["p"] != 0}
-            if e["k"] == "ans" and any(t["i"] == o.get("idx") for t in (o.get("tx") or [])) and sub - sent:
+            fresh = o.get("idx") if e["k"] == "ans" else (nxt if e["k"] == "refdata" else None)
+            if e["k"] == "ans":
+                role[o.get("idx")] = "initiator"
+            if e["k"] == "refinit":
+                role[o.get("idx")] = "responder"
+            if fresh is not None and any(t["i"] == fresh for t in (o.get("tx") or [])) and sub - sent:
                 return "held-packets-not-delivered-by-new-session"
-            due = any(t["c"] > REKEY for t in (o.get("tx") or [])) or bool(sub - sent)
-            if allowed and e["k"] in ("tun", "ans", "uapi") and due and o.get("init", 0) == 0:
-                return "no-initiation-when-due"
+            passed = [t for t in (o.get("tx") or []) if t["c"] > REKEY]
+            due = bool(passed) or bool(sub - sent)
+            flush = e["k"] in ("tun", "ans", "uapi") or (e["k"] == "refdata" and nxt is not None)
+            if allowed and flush and due and o.get("init", 0) == 0:
+                return "no-initiation-when-due" + ("-device-was-%s" % role.get(passed[0]["i"], "unknown") if passed else "")
             if e["k"] == "allow":
                 allowed = True
-            elif o.get("init", 0) >= 1:
+            elif e["k"] == "refinit" or o.get("init", 0) >= 1:
                 allowed = False
+            if e["k"] == "refinit":
+                nxt = o.get("idx")
+            elif e["k"] in ("ans", "refdata"):
+                nxt = None
         return "seq-other"
 
     def nontrivial(self, c):
